@@ -48,14 +48,20 @@ def main():
     seed = int(os.environ.get("VERIF_SEED", "0") or 0)
     ctx = common.Ctx(pid, a.tier, seed, a.replay)
 
-    class Watchdog(Exception):
-        pass
+    # Watchdog: a check never runs away.  A timer thread (the per-property harnesses use SIGALRM
+    # themselves) records the broken tie, writes evidence and ends the process.
+    import threading
 
-    def on_alarm(signum, frame):
-        raise Watchdog("check exceeded its time limit")
-    import signal
-    signal.signal(signal.SIGALRM, on_alarm)
-    signal.alarm(1500 if a.tier == "quick" else 5400)
+    def on_watchdog():
+        ctx.tie_broken("watchdog", "check exceeded its time limit (%s tier)" % a.tier)
+        rc = 1
+        try:
+            rc = ctx.finish()
+        finally:
+            os._exit(rc or 1)
+    wd = threading.Timer(2400 if a.tier == "quick" else 7200, on_watchdog)
+    wd.daemon = True
+    wd.start()
     try:
         mod = importlib.import_module(pid.lower())
         if a.replay:
